@@ -150,8 +150,40 @@ enum Succ<Op> {
     MoreHits { sig: String, n: u64 },
 }
 
-fn rebuild<S: System>(mk: &(impl Fn() -> S + Sync), hist: &[S::Op]) -> S {
-    let mut s = mk();
+/// Owns a system and drops it under `catch`: after a caught panic inside the code under test
+/// its locks are poisoned and its destructors may panic too (e.g. a `Drop` that locks) — that
+/// must not take the explorer down.
+pub struct Own<S>(Option<S>);
+
+impl<S> Own<S> {
+    pub fn new(s: S) -> Own<S> {
+        Own(Some(s))
+    }
+}
+
+impl<S> std::ops::Deref for Own<S> {
+    type Target = S;
+    fn deref(&self) -> &S {
+        self.0.as_ref().expect("system present")
+    }
+}
+
+impl<S> std::ops::DerefMut for Own<S> {
+    fn deref_mut(&mut self) -> &mut S {
+        self.0.as_mut().expect("system present")
+    }
+}
+
+impl<S> Drop for Own<S> {
+    fn drop(&mut self) {
+        if let Some(s) = self.0.take() {
+            let _ = panics::catch(move || drop(s));
+        }
+    }
+}
+
+fn rebuild<S: System>(mk: &(impl Fn() -> S + Sync), hist: &[S::Op]) -> Own<S> {
+    let mut s = Own::new(mk());
     for (i, op) in hist.iter().enumerate() {
         match panics::catch(|| s.step(op)) {
             Ok(Ok(())) => {}
@@ -198,7 +230,7 @@ pub fn explore<S: System>(mk: impl Fn() -> S + Sync, cfg: &ExploreCfg) -> Explor
     let mut stats = ExploreStats::default();
     let mut seen: HashSet<u128> = HashSet::new();
 
-    let root = mk();
+    let root = Own::new(mk());
     let root_key = crate::hash128(&format!("0|{}", root.canon()));
     seen.insert(root_key);
     stats.states = 1;
@@ -207,8 +239,8 @@ pub fn explore<S: System>(mk: impl Fn() -> S + Sync, cfg: &ExploreCfg) -> Explor
     }
     drop(root);
     if cfg.check_finish {
-        let mut s = mk();
-        if let Err(f) = guarded(&mut s, |s| s.finish()) {
+        let mut s = Own::new(mk());
+        if let Err(f) = guarded(&mut *s, |s| s.finish()) {
             stats.violations.insert(f.sig, (f.detail, json!([]), 1));
         }
     }
@@ -278,7 +310,7 @@ pub fn explore<S: System>(mk: impl Fn() -> S + Sync, cfg: &ExploreCfg) -> Explor
                                     hist.push(op.clone());
                                     hist
                                 };
-                                match guarded(&mut s, |s| s.step(&op)) {
+                                match guarded(&mut *s, |s| s.step(&op)) {
                                     Ok(()) => {
                                         let spent = node.spent + c;
                                         let key = crate::hash128(&format!("{}|{}", spent, s.canon()));
@@ -357,7 +389,7 @@ pub fn explore<S: System>(mk: impl Fn() -> S + Sync, cfg: &ExploreCfg) -> Explor
                             let mut out = Vec::new();
                             for node in nodes {
                                 let mut s = rebuild(mk_ref, &node.hist);
-                                if let Err(f) = guarded(&mut s, |s| s.finish()) {
+                                if let Err(f) = guarded(&mut *s, |s| s.finish()) {
                                     out.push((f, node.hist.clone()));
                                 }
                             }
@@ -389,16 +421,16 @@ pub fn explore<S: System>(mk: impl Fn() -> S + Sync, cfg: &ExploreCfg) -> Explor
 /// Replays one history (no explorer) and returns the first failure, if any.
 pub fn replay<S: System>(mk: impl Fn() -> S, hist: &Value) -> Result<(), Fail> {
     panics::install_hook();
-    let mut s = mk();
+    let mut s = Own::new(mk());
     let arr = hist.as_array().cloned().unwrap_or_default();
     for v in arr {
         if v == json!("<finish>") {
-            return guarded(&mut s, |s| s.finish());
+            return guarded(&mut *s, |s| s.finish());
         }
         let op: S::Op = serde_json::from_value(v.clone()).map_err(|e| {
             Fail::new("machinery/replay-parse", format!("cannot parse op {v}: {e}"))
         })?;
-        guarded(&mut s, |s| s.step(&op))?;
+        guarded(&mut *s, |s| s.step(&op))?;
     }
     Ok(())
 }
